@@ -6,5 +6,5 @@ for seed in "$@"; do
     n=$(basename $d); id=${n%%-*}
     echo "$seed $n"
   done
-done | xargs -P 3 -L 1 bash -c 'r=$(VERIF_SEED=$0 /verif/tools/mutant.sh /verif/seeded/$1/patch.diff ${1%%-*} 2>&1 | tail -1); echo "seed=$0 $1: $r"' | tee /verif/.work/sweep.log | grep -v CAUGHT
+done | xargs -P 5 -L 1 bash -c 'r=$(VERIF_SEED=$0 /verif/tools/mutant.sh /verif/seeded/$1/patch.diff ${1%%-*} 2>&1 | tail -1); echo "seed=$0 $1: $r"' | tee /verif/.work/sweep.log | grep -v CAUGHT
 echo "sweep done: $(grep -c CAUGHT /verif/.work/sweep.log) caught of $(wc -l < /verif/.work/sweep.log)"
